@@ -44,9 +44,9 @@ PLANS = {
         thorough=[("positions", "status", [], 9, 60000), ("play", "status", ["-plies", "100"], 7, 60000)]),
     "C10": dict(
         quick=[("shuffle", "rep,hash", ["-plies", "120", "-rawep"], 9, 5000), ("play", "rep,hash", ["-plies", "80", "-rawep"], 4, 5000),
-               ("ucirep", "", ["-plies", "60"], 3, 200)],
+               ("ucirep", "", ["-plies", "60"], 2, 200), ("zkeys", "", [], 1, 1)],
         thorough=[("shuffle", "rep,hash", ["-plies", "300", "-rawep"], 9, 50000), ("play", "rep,hash", ["-plies", "120", "-rawep"], 4, 50000),
-                  ("ucirep", "", ["-plies", "120"], 3, 400)]),
+                  ("ucirep", "", ["-plies", "120"], 2, 400), ("zkeys", "", [], 1, 1)]),
 }
 
 REPLAY_OBS = {"C01": "legal", "C02": "fen", "C03": "hash,hashes", "C04": "hash", "C05": "gen", "C09": "status",
@@ -75,7 +75,7 @@ def shard_jobs(prop, tier, bins, work):
 
             def record(path, args=args):
                 vf.run_recorder([bins["rec-board"]] + args + ["-corpus", CORPUS, "-out", path], timeout=900)
-            jobs.append(dict(name="%s-%s-%d" % (prop, mode, i), record=record, args=args))
+            jobs.append(dict(name="%s-%s-%d" % (prop, mode, i), record=record, args=args, env={"PROP": prop}))
     return jobs
 
 
